@@ -6,7 +6,7 @@ import ast
 import builtins as _pybuiltins
 from typing import Any
 
-from .c02_exec import LIBRARY_OBJECT_TYPES, PY_EXC, Interp as _Interp, _hashable
+from .c02_exec import _MISSING, LIBRARY_OBJECT_TYPES, PY_EXC, Interp as _Interp, _hashable
 from .c02_sym import (
     MUTATORS,
     STR_METHODS,
@@ -20,6 +20,7 @@ from .c02_sym import (
     Explorer,
     ExtObj,
     ExtRef,
+    ExtView,
     Frame,
     FuncVal,
     Inst,
@@ -53,6 +54,8 @@ class Interp(_Interp):
         if t in (list, tuple, set, frozenset):
             if not args:
                 return t()
+            if isinstance(args[0], Sym) and args[0].kind == "set":
+                return args[0]  # a copy of the symbolic set answers membership tests like the set itself
             kind, items = self.iterate(args[0], node, frame)
             if kind != "concrete":
                 return App(t.__name__, (items,))
@@ -370,6 +373,10 @@ class Interp(_Interp):
         fi = frame.fi if frame else None
         if isinstance(recv, ExtObj):
             return self.ext_method(recv, name, args, kwargs, node, frame)
+        if isinstance(recv, ExtView):
+            return self.view_method(recv, name, args, kwargs, node, frame)
+        if isinstance(recv, Inst) and name.startswith("NodeVisitor."):
+            return self.node_visitor(recv, name.split(".")[1], args[0], node, frame)
         if isinstance(recv, Term):
             return App(f"meth:{name}", (recv, *[_h(a) for a in args], *[(k, _h(v)) for k, v in sorted(kwargs.items())]))
         if isinstance(recv, str):
@@ -385,6 +392,28 @@ class Interp(_Interp):
                         raise Raised(None, "TypeError")
                     parts.append(x)
                 return cat(*parts) if parts else ""
+            if name == "format" and not (all(is_native(a) for a in args) and all(is_native(v) for v in kwargs.values())):
+                import string
+
+                out: list = []
+                auto = 0
+                for lit, fld, spec, conv in string.Formatter().parse(recv):
+                    out.append(lit)
+                    if fld is None:
+                        continue
+                    if spec or conv not in (None, "s"):
+                        raise Unsupported("format specification on a symbolic value", node, fi)
+                    if fld == "":
+                        v = args[auto]
+                        auto += 1
+                    elif fld.isdigit():
+                        v = args[int(fld)]
+                    elif fld in kwargs:
+                        v = kwargs[fld]
+                    else:
+                        raise Unsupported(f"format field {{{fld}}}", node, fi)
+                    out.append(self.to_str(v, node, frame))
+                return cat(*out)
             if name in STR_METHODS:
                 if all(is_native(a) for a in args) and all(is_native(v) for v in kwargs.values()):
                     try:
@@ -482,18 +511,16 @@ class Interp(_Interp):
     def dict_method(self, recv: dict, name: str, args: list, kwargs: dict, node, frame) -> Any:
         fi = frame.fi if frame else None
         if name == "get":
-            k = _hashable(args[0])
-            if k in recv:
-                return recv[k]
-            for key in recv:
-                if (isinstance(key, Term) or isinstance(k, Term)) and self.equal(key, k):
-                    return recv[key]
-            return args[1] if len(args) > 1 else None
+            key = self.dict_key(recv, _hashable(args[0]))
+            if key is not _MISSING:
+                return recv[key]
+            return args[1] if len(args) > 1 else kwargs.get("default")
         if name == "setdefault":
-            k = _hashable(args[0])
-            if k not in recv:
-                recv[k] = args[1] if len(args) > 1 else None
-            return recv[k]
+            key = self.dict_key(recv, _hashable(args[0]))
+            if key is _MISSING:
+                key = _hashable(args[0])
+                recv[key] = args[1] if len(args) > 1 else None
+            return recv[key]
         if name == "items":
             return list(recv.items())
         if name == "keys":
@@ -513,8 +540,8 @@ class Interp(_Interp):
             recv.update(kwargs)
             return None
         if name == "pop":
-            k = _hashable(args[0])
-            if k in recv:
+            k = self.dict_key(recv, _hashable(args[0]))
+            if k is not _MISSING:
                 return recv.pop(k)
             if len(args) > 1:
                 return args[1]
@@ -576,12 +603,58 @@ class Interp(_Interp):
             return x
         raise Unsupported(f"set.{name}", node, fi)
 
+    def view_method(self, w: ExtView, name: str, args: list, kwargs: dict, node, frame) -> Any:
+        o, v = w.obj, w.obj.version
+        if name == "get" and w.kind in ("adj1", "pred1"):
+            a, b = (w.key, args[0]) if w.kind == "adj1" else (args[0], w.key)
+            if self.decide(App(f"hasedge@{v}", (o.name, _h(a), _h(b)))):
+                return App(f"edgedata@{v}", (o.name, _h(a), _h(b)))
+            return args[1] if len(args) > 1 else None
+        if name == "get" and w.kind in ("adj", "pred"):
+            if self.decide(App(f"hasnode@{v}", (o.name, _h(args[0])))):
+                return ExtView(o, w.kind + "1", args[0])
+            return args[1] if len(args) > 1 else None
+        return App(f"ext:{w.kind}.{name}@{v}", (o.name, _h(w.key), *[_h(a) for a in args]))
+
+    def node_visitor(self, inst: Inst, which: str, n: Any, node, frame) -> Any:
+        """Model of ast.NodeVisitor.visit / generic_visit."""
+        if not isinstance(n, ANode):
+            raise Unsupported("NodeVisitor.visit on a value that is not an abstract syntax node", node, frame.fi if frame else None)
+        if which == "visit":
+            try:
+                m = self.getattr_value(inst, f"visit_{n.cls}", node, frame)
+            except Raised as r:
+                if r.name != "AttributeError":
+                    raise
+                m = self.getattr_value(inst, "generic_visit", node, frame)
+            return self.call(m, [n], {}, node, frame)
+        for f in n.pycls._fields:
+            v = n.fields.get(f)
+            for x in v if isinstance(v, list) else [v]:
+                if isinstance(x, ANode):
+                    self.call(self.getattr_value(inst, "visit", node, frame), [x], {}, node, frame)
+        return None
+
     # ------------------------------------------------------------------ abstract library objects (networkx graph)
     def ext_method(self, o: ExtObj, name: str, args: list, kwargs: dict, node, frame) -> Any:
         fi = frame.fi if frame else None
         v = o.version
+        where = f"{fi.relpath}:{getattr(node, 'lineno', 0)}" if fi is not None and node is not None else ""
+        if name in ("add_edges_from", "add_nodes_from") and args:
+            kind, items = self.iterate(args[0], node, frame)
+            if kind == "concrete":
+                for x in items:
+                    if name == "add_nodes_from":
+                        nd, extra = (x[0], x[1]) if isinstance(x, tuple) and len(x) == 2 and isinstance(x[1], dict) else (x, {})
+                        self.effects.append(Effect("ext", o, "add_node", (nd,), {**kwargs, **extra}, self.in_loop > 0, dict(self.path), v, where))
+                    else:
+                        if not isinstance(x, (tuple, list)) or len(x) < 2:
+                            raise Unsupported("add_edges_from with an element that is not a pair", node, fi)
+                        extra = x[2] if len(x) > 2 and isinstance(x[2], dict) else {}
+                        self.effects.append(Effect("ext", o, "add_edge", (x[0], x[1]), {**kwargs, **extra}, self.in_loop > 0, dict(self.path), v, where))
+                o.version += 1
+                return None
         if name in MUTATORS:
-            where = f"{fi.relpath}:{getattr(node, 'lineno', 0)}" if fi is not None and node is not None else ""
             self.effects.append(Effect("ext", o, name, tuple(args), dict(kwargs), self.in_loop > 0, dict(self.path), v, where))
             o.version += 1
             return None
@@ -593,6 +666,10 @@ class Interp(_Interp):
             if self.decide(App(f"hasedge@{v}", (o.name, _h(args[0]), _h(args[1])))):
                 return App(f"edgedata@{v}", (o.name, _h(args[0]), _h(args[1])))
             return args[2] if len(args) > 2 else kwargs.get("default")
+        if name in ("successors", "neighbors"):
+            return ExtView(o, "adj1", args[0])
+        if name == "predecessors":
+            return ExtView(o, "pred1", args[0])
         if name in ("has_successor", "has_predecessor"):
             a, b = (args[0], args[1]) if name == "has_successor" else (args[1], args[0])
             return self.decide(App(f"hasedge@{v}", (o.name, _h(a), _h(b))))
